@@ -266,7 +266,9 @@ def accepts(**arg_units):
         """
         # look through other functools.wraps-based decorators (e.g. @returns) for the
         # names of positional arguments; the function that gets called is still f
-        names_of_args = unwrap(f).__code__.co_varnames
+        code = unwrap(f).__code__
+        # co_varnames goes on with keyword-only names, *args / **kwargs and locals
+        names_of_args = code.co_varnames[: code.co_argcount]
 
         @wraps(f)
         def new_f(*args, **kwargs):
